@@ -11,6 +11,14 @@ var CacheableStatuses = []int{200, 203, 204, 206, 300, 301, 404, 405, 410, 414, 
 // SigningFixtures are the fixture indices used as signers in generated specs.
 var SigningFixtures = []int{0, 1, 4, 5}
 
+func stringsRepeat(x string, n int) string {
+	out := make([]byte, 0, n*len(x))
+	for i := 0; i < n; i++ {
+		out = append(out, x...)
+	}
+	return string(out)
+}
+
 // GenSpec draws a policy-conforming exchange spec: it must sign, write, read and verify.
 func GenSpec(t *rapid.T) *Spec {
 	s := &Spec{}
@@ -24,6 +32,11 @@ func GenSpec(t *rapid.T) *Spec {
 	origin := "https://" + host + port
 	s.URL = origin + gen.PathQuery(t, "url")
 	s.ValidityURL = origin + rapid.SampledFrom([]string{"/validity", "/v/resource.validity.msg", "/", "/a%20b?x=1", ""}).Draw(t, "validity")
+	if rapid.IntRange(0, 7).Draw(t, "longvalidity") == 0 {
+		// long validity URLs (around the 255/256 byte boundary of one-byte length encodings)
+		n := rapid.SampledFrom([]int{200, 254, 255, 256, 257, 300, 1000}).Draw(t, "validitylen")
+		s.ValidityURL = origin + "/" + stringsRepeat("v", n)
+	}
 	s.CertURL = rapid.SampledFrom([]string{"https://cert.example/cert.cbor", "https://a.example/c?x=1", "data:application/cert-chain+cbor;base64,AAAA"}).Draw(t, "certurl")
 	s.Method = "GET"
 	if s.Version != "1b3" {
